@@ -39,7 +39,7 @@ META = dict(
          "named nested values shared with the original); that clause is decided by the mutate-then-compare oracle on "
          "the real class only. from_dict: tree model of from_dict/as_dict (PPModel/Mod/PRFromDict.lean), "
          "from_dict_roundtrip proved for ALL dicts whose nested dicts are non-empty, at every depth (full strength on "
-         "the tree model, which assumes C11.concat_is_merge for the `+=` in the loop and is tied to the class by a "
+         "the tree model; its one assumption about `+=` in the loop is proved on the full model as from_dict_item_step; tied to the class by a "
          "per-run structural correspondence); from_dict_empty_inner_dict shows why `non-empty` is needed.",
     note="Trusted: Lean kernel; axioms propext/Classical.choice/Quot.sound; the value model of results.py (C10) and the "
          "transcription of copy()/__getstate__/__setstate__/__add__/__radd__; the heap model (PRHeap.lean) is tied to the "
@@ -76,6 +76,7 @@ THEOREMS = [
     "PP.PR.concat_empty_left",
     "PP.PR.sum_is_fold",
     "PP.PR.concat_assoc_former_witness",
+    "PP.PR.from_dict_item_step",
 ]
 
 KINDS = ["copy", "copy.copy", "deepcopy", "copy.deepcopy", "pickle"]
